@@ -8,7 +8,9 @@ import verif as V
 ASSUME = ["the attacker is off-path: it replays datagrams it has seen from addresses of its choice but never sees what is sent to those addresses",
           "timers are serviced at most cfg.late_us late; deadlines carry 5 ms slack",
           "packet eligibility (authenticated, new highest number, non-probing) is taken from the probe's counters and the independent decoder"]
-VALS = [("migration", "MigrationTrace.tla", "MigrationTrace.cfg"), ("antiamp", "AntiAmpTrace.tla", "AntiAmpTrace.cfg")]
+VALS = [("migration", "MigrationTrace.tla", "MigrationTrace.cfg"), ("antiamp", "AntiAmpTrace.tla", "AntiAmpTrace.cfg"),
+        # connection-ID management on the same runs (migration consumes and rotates IDs): extension spec
+        ("cids", "CidTrace.tla", "CidTrace.cfg")]
 
 
 def check_C15(tier, seed):
@@ -23,7 +25,7 @@ def check_C15(tier, seed):
     for v in props.sample(vecs, n_vec, r):
         scripts.append(scen_c15.migration_script(r, len(scripts), [r.choice(["port", "ip", "spoof"]), r.choice(["wait", "back", "spoof"])], fate_vec=v))
     scripts += [scen_c15.migration_random(r, len(scripts) + i) for i in range(n_rand)]
-    mcs = [("Migration.tla", "MC_Migration.cfg")]
+    mcs = [("Migration.tla", "MC_Migration.cfg"), ("CidFlow.tla", "MC_CidFlow.cfg")]
     return props.generic("C15", tier, seed, mcs, scripts, VALS, ASSUME,
                          extra_cov={"operation_sequences_enumerated_by_tlc": len(seqs), "fate_vectors_enumerated_by_tlc": len(vecs),
                                     "generator_states": gst})
